@@ -2,7 +2,7 @@
    read sizes; the retry budget. *)
 From Coq Require Import List ZArith Bool Lia.
 Import ListNotations.
-Require Import BS.Common.Util BS.C15.Model BS.C15.Lists.
+Require Import BS.Common.Util BS.C15.Model BS.C15.Lists BS.C15.Corr.
 
 (* ------------------------------------------------------------------ *)
 (* the invariant: bytes = length delivered, delivered is the stream's  *)
@@ -138,8 +138,6 @@ Proof.
     + destruct Hst as [H|[H|H]]; discriminate.
     + destruct Hst as [H|[H|H]]; discriminate.
 Qed.
-
-Definition delivered (res : list (list Z * status)) : list Z := concat (map fst res).
 
 (* ---- the whole sequence of Read calls ---- *)
 Lemma rr_run_inv : forall sizes stream eager sc r tr del res r' tr',
